@@ -72,10 +72,12 @@ TSweep   == IsEvent("sweep") /\ Sweep /\ LoggedP(Ev.s)
 TDlq     == IsEvent("dlqsweep") /\ DLQSweep /\ LoggedP(Ev.s)
 TCrash   == IsEvent("crash") /\ CrashWhen(TRUE) /\ LoggedP(Ev.s)
 TCancel  == IsEvent("sendcancel") /\ SendCancel /\ LoggedP(Ev.s)
+TSignal  == IsEvent("sendsignal") /\ SendSignal(Ev.stage, Ev.pers) /\ LoggedP(Ev.s)
+TClaimSweep == IsEvent("claimsweep") /\ ClaimSweep /\ LoggedP(Ev.s)
 TEarly   == IsEvent("early") /\ EarlyStart(Ev.stage) /\ LoggedP(Ev.s)
 
 TraceNext == TCommit \/ TDedup \/ TTrusted \/ TBloomReset \/ TExec \/ THRet \/ THRaise \/ THFail \/ TNoAck \/ TWarp \/ TExpire
-             \/ TSweep \/ TDlq \/ TCrash \/ TCancel \/ TEarly
+             \/ TSweep \/ TDlq \/ TCrash \/ TCancel \/ TEarly \/ TSignal \/ TClaimSweep
 
 TraceSpec == TraceInit /\ [][TraceNext]_tvars
 
